@@ -329,7 +329,7 @@ class Series:
     map = apply
 
     def diff(self):
-        return Series([nan] + [self.v[i] - self.v[i - 1] for i in range(1, len(self.v))], self.index, self.name)
+        return Series(([nan] if self.v else []) + [self.v[i] - self.v[i - 1] for i in range(1, len(self.v))], self.index, self.name)
 
     def fillna(self, val):
         def f(x):
